@@ -364,3 +364,43 @@ def cyclic_families():
                         G.add_edge(p, q, flow=wt(u * (L if t == 0 else L - 1)))
                     yield {"name": f"loop L={L} u={u} size={size} {wt.__name__}", "G": G, "k_list": [1] if L > 2 else [1, 2],
                            "weight_type": wt, "width": 1, "lae_opt": F(0), "mpe_opt": F(0)}
+
+
+# ------------------------------------------------------------------------------------------
+# HiGHS 1.15.1 returns different STATUSES / "optimal" objectives for the same MILP depending on the presolve option
+# (presolve on: feasible models reported infeasible, DESIGN 10.4; presolve off: the same, and non-optimal solutions
+# reported kOptimal).  That breaks the solver specification of DESIGN §4, not flowpaths.  Before an E2 discrepancy is
+# reported, the instance is re-solved with the other presolve setting; if the solver contradicts itself the observation
+# is an instance of the open finding K_HIGHS.
+K_HIGHS = "highs_status_depends_on_presolve"
+
+
+def solver_disagrees(cls, args, m):
+    """None, or a description of how HiGHS answers differently with the other presolve setting"""
+    import flowpaths as fp
+    from flowpaths.utils import solverwrapper as sw
+    cur = (args.get("solver_options") or {}).get("presolve", sw.SolverWrapper.presolve)
+    alt = "choose" if cur == "off" else "off"
+    a = clean_args(args); so = dict(a.get("solver_options") or {}); so["presolve"] = alt; a["solver_options"] = so
+    try:
+        m2 = getattr(fp, cls)(**a); m2.solve()
+    except Exception:
+        return None
+    s1, s2 = m.solver.get_model_status(), m2.solver.get_model_status()
+    if {s1, s2} == {"kOptimal", "kInfeasible"}:
+        return f"presolve={cur}: {s1}, presolve={alt}: {s2}"
+    if s1 == s2 == "kOptimal":
+        o1, o2 = m.solver.get_objective_value(), m2.solver.get_objective_value()
+        if abs(o1 - o2) > 1e-6 * (1 + abs(o1)):
+            return f"both kOptimal but objective {o1} (presolve={cur}) vs {o2} (presolve={alt})"
+    return None
+
+
+def report(ctx, what, rep, cls, args, m, key=None):
+    """ctx.report, after asking whether the solver contradicts itself on this instance"""
+    if key is None and m is not None and getattr(m, "solver", None) is not None:
+        why = solver_disagrees(cls, args, m)
+        if why:
+            key = K_HIGHS; what = what + " [HiGHS contradicts itself: " + why + "]"
+            rep = dict(rep, highs=why)
+    ctx.report(what, rep, key=key)
